@@ -49,6 +49,9 @@ func debugGuards(args []string) {
 func debugExtents(args []string) {
 	arch, name := args[0], args[1]
 	c := &Ctx{Repo: "/repo", Verif: "/verif", Tier: "quick"}
+	if v := osGetenv("SMGO_REPO"); v != "" {
+		c.Repo = v
+	}
 	r := NewReport("dbg", "quick", "other")
 	u, _ := loadAsmBound(c, r, arch)
 	if u == nil {
